@@ -1,5 +1,8 @@
 """C11 / C14 — TCP remoting: framing, delivery, faults."""
 
+_ACC = {"internal/actor/xv_remoting_verif.go": "acc/actor/xv_remoting_verif.go",
+        "internal/remoting/xv_backoff_verif.go": "acc/remoting/xv_backoff_verif.go"}
+
 _ARGS_FRAME = {"quick": ["-mode", "frame"], "thorough": ["-mode", "frame"]}
 _ARGS_LINK = {"quick": ["-mode", "link"], "thorough": ["-mode", "link"]}
 
@@ -7,6 +10,7 @@ COMPONENTS = {
     "frame": {
         "coq_run_module": "Remoting.RemRun",
         "cmd": "remoting",
+        "accessors": _ACC,
         "args": _ARGS_FRAME,
         "timeout": {"quick": 240, "thorough": 2400},
         "what": ("two real vivid systems in one process over loopback through the harness TCP proxy (re-chunks the byte stream: pass, 1-byte, "
@@ -14,11 +18,16 @@ COMPONENTS = {
                  "system are replayed on Remoting/Frame.v's receiver (deliveries to the actor, decoded frames, decode failures, invalid lengths); "
                  "receiver churn (harness/cmd/remoting/churn.go, own pair of systems): scripts of spawn / kill (termination awaited) / re-spawn under the same "
                  "name / first spawn at a path that already received traffic / supervision restart on the RECEIVING system, interleaved with bursts, replayed on "
-                 "Remoting/Churn.v (per path: which incarnation and restart epoch received which message, which messages were dead-lettered)"),
+                 "Remoting/Churn.v (per path: which incarnation and restart epoch received which message, which messages were dead-lettered); "
+                 "first contact (harness/cmd/remoting/coldstart.go): per round a FRESH sender system and 1-2 fresh receivers, 8..16 senders (goroutines through "
+                 "ActorSystem.Tell or actors through ActorContext.Tell) released from a spin barrier, each sending a short numbered burst as its very first traffic to "
+                 "every address string of the round (advertised address and localhost alias of each receiver); the connection each frame travelled on (read from the "
+                 "receivers' proxies) is compared with Remoting/Central.v (one mailbox = one connection per address)"),
     },
     "link": {
         "coq_run_module": "Remoting.RemRun",
         "cmd": "remoting",
+        "accessors": _ACC,
         "args": _ARGS_LINK,
         "timeout": {"quick": 240, "thorough": 2400},
         "what": ("the same two systems under faults arranged by the proxy: connection cut after every byte offset of a 3-frame stream, refused and "
@@ -26,13 +35,30 @@ COMPONENTS = {
                  "observable events (connection-failed retry counts, send-failed, sent, dead letter, dials), the byte count of every connection and "
                  "the receiver's observations are replayed on Remoting/Link.v + Frame.v; two peers (harness/cmd/remoting/twopeers.go): one sender with "
                  "ReconnectLimit 1..2 (1..4 thorough), a peer that refuses connections and a healthy peer that gets a Tell every 12 ms from its own goroutine while "
-                 "the Tell to the refusing peer retries; each peer's mailbox is replayed on the sender machine separately"),
+                 "the Tell to the refusing peer retries; each peer's mailbox is replayed on the sender machine separately; "
+                 "back-off (harness/cmd/remoting/backoff.go, before any system runs): the REAL utils.ExponentialBackoff against Remoting/Backoff.v bit for bit - the global "
+                 "math/rand source is seeded (//go:debug randseednop=0) and mirrored, the 63-bit integer behind every rand.Float64() is handed to the model: sessions of "
+                 "Next / Reset / GetAttempt on vivid's two configurations (100 ms..3 s, 100 ms..10 s), boundary and random configurations, 1100 attempts without Reset "
+                 "(math.Pow overflow); Try(limit, fn) with scripted outcomes of fn (all fail, fail^j then success / abort with and without error, random) for limits "
+                 "-1, 0, 1, 2, 3, 5, 10, followed by one more Next() (proves how many random numbers Try consumed); a second Try on the same object after an exhausted / "
+                 "successful / aborted first one; the configuration and the idle attempt counter of the objects of a live system through add-only accessors; "
+                 "frames that decode but cannot be routed (harness/cmd/remoting/badrefs.go): the proxy injects well-formed envelopes whose sender / receiver reference "
+                 "actor.NewRef rejects (no sender, bad port, bare IP, receiver path without '/', ...) between the frames of a healthy connection; "
+                 "listener retry (harness/cmd/remoting/acceptbackoff.go, beside the other scenarios): a system is started while the harness holds its port; after 3 "
+                 "(thorough 6) failed attempts to listen the port is released: the system must listen by itself and receive from another system; the delays it logged "
+                 "are checked against the intervals of Backoff.v's server_cfg (attempt numbers 0, 1, 2, ..: no reset between failures); "
+                 "same peer port again (harness/cmd/remoting/acceptcollision.go, beside the other scenarios): A reaches B through a forwarder that dials B from a FIXED "
+                 "local address; 3 Tells, the path goes away (variants: FIN then RST 300 ms later = regression of the repaired defect C14-accept-name-collision; RST at "
+                 "once; RST while B's reader actor is busy decoding a message whose payload takes the harness codec 700 ms), is re-established from the same address, "
+                 "5 more Tells; per forwarded "
+                 "connection the frames passed on and the frames that reached the actor are compared with Remoting/Accept.v (RemRun op 10)"),
     },
 }
 
 COMPONENTS["transparency"] = {
     "coq_run_module": "Remoting.RemRun",
     "cmd": "remoting",
+    "accessors": _ACC,
     "args": {"quick": ["-mode", "transparency"], "thorough": ["-mode", "transparency"]},
     "timeout": {"quick": 240, "thorough": 1200},
     "monitors_only": True,
@@ -45,7 +71,14 @@ COMPONENTS["transparency"] = {
              "(monitors c15-alias-not-delivered, c15-alias-self-send); before that, name reuse (harness/cmd/remoting/respawn.go): the actor at /rspN on B is "
              "addressed remotely (Tell, Ask, Ping, PipeTo with a forwarder on C, Watch from A and C, Kill from A), terminates, a new actor is spawned under the "
              "same name (2 incarnations quick / 3 thorough; the forwarder on C is re-created too) and every operation is repeated next to the same operation "
-             "through B's local ref (monitors c15-remote-after-respawn:<tell|ask|ping|pipe-target|pipe-forwarder|watch|kill>, c15-local-control); one model "
+             "through B's local ref (monitors c15-remote-after-respawn:<tell|ask|ping|pipe-target|pipe-forwarder|watch|kill>, c15-local-control); "
+             "boundary inputs (harness/cmd/remoting/boundary.go): Kill reasons, Ask/Reply payloads, *vivid.Error reply texts and PipeTo success/failure results whose byte "
+             "lengths sit on the edges of the 1-, 2- and 4-byte length prefixes and of 64 KiB (multi-byte runes crossing byte 255/256, non-UTF-8 bytes, variadic reasons "
+             "joined by the library, both poison values), each run once through a LOCAL ref on the calling system A (control) and once through the REMOTE ref to B, "
+             "watchers on A and C, forwarders on C and on A (monitors c15-boundary:<kill-not-terminated|kill-onkill-count|kill-reason-differs|kill-poison-differs|"
+             "kill-killer-differs|watch|ask-reply|pipe|local-control>; every detail and case term names operation, field, byte length, label, poison flag and "
+             "local/remote); the proxies of this mode reset both legs when a connection is replaced (a FIN-closed accepted connection leaves its reader actor "
+             "registered until it has seen the end of its stream: finding C14-accept-name-window, before /repo c1a2e19 for ever); one model "
              "case per round: the A->B byte stream phase by phase on Remoting/Churn.v (which incarnation received A's messages, which were dead-lettered on B)"),
 }
 
@@ -55,6 +88,7 @@ _M5 = ("M5: TCP is a reliable FIFO byte stream that may split/coalesce arbitrari
 PROPERTIES = {
     "C11": {
         "components": ["frame"],
+        "coq_files": ["Properties/C11.v", "Properties/C11_central.v"],
         "rule": ("rounds of concurrent sender actors (1..8 per direction, bursts up to 2000, payloads 0..1 MiB quick / just under 4 MiB thorough, every k-th "
                  "message an Ask answered by Reply) in both directions, each round on a fresh connection under one chunking mode; one case = one "
                  "connection's byte stream (as chunked by the proxy, up to 160 KiB) with everything the receiving system observed; larger streams are "
@@ -66,6 +100,11 @@ PROPERTIES = {
                  "the parent's OnKilled and FindActor failing; spawn waits for OnLaunch); one case = one script with the bytes of every traffic phase, compared per path "
                  "on (incarnation, epoch, message) deliveries and dead letters; monitor c11-live-actor-not-delivered: a message sent over the healthy link to a path where "
                  "an actor is registered must reach THAT incarnation exactly once, in order, intact. "
+                 "First contact (12 rounds quick / 150 thorough, fresh systems each; senders, burst, API, number of receivers from the seed): monitors "
+                 "c11-cold-start-order (per sender and address string the receiving actor sees exactly 0,1,2,.. once each, in order, intact) and "
+                 "c11-cold-start-connections (all frames to ONE address string over the healthy link travelled on ONE connection - deterministic whenever a second "
+                 "mailbox was made for an address, also when no reorder shows); one case = one round: the messages in the order (address, sender, seq) with the "
+                 "connection each travelled on, numbered by first appearance, against Central.central_ids. "
                  "non-trivial = more than one frame and more than one chunk; distinct = distinct byte streams/chunkings"),
         "modelled_not_verified": [
             _M5,
@@ -76,15 +115,32 @@ PROPERTIES = {
             "bufio.Reader + io.ReadFull = an unbounded buffer refilled by arbitrary reads (Frame.read_full)",
             "receiver churn: the steps of a script are sequential (Churn.run_churn; the harness separates them by round trips); a kill / spawn racing with traffic "
             "in flight is not modelled; the registry is actorContexts restricted to actors (ActorOf = LoadOrStore, final kill = Delete, restart keeps the entry)",
+            "first contact (Remoting/Central.v): MailboxCentral.GetOrCreate is ONE atomic step (its whole body holds rmc.lock; M1) and Mailbox.Enqueue is one atomic "
+            "step per mailbox (connectionLock held from the first to the last byte of the frame; M1); the schedule of these steps over any number of sender threads is "
+            "universally quantified; System.findMailbox's other branches (local refs, closed context, remoting disabled) are not part of this model; the link is "
+            "healthy (one connection per mailbox: reconnects are C14's Link.v); the orphan-mailbox machine (Central.orun) is a hypothetical variant used only in "
+            "C11_orphan_mailbox_reorders_refuted",
         ],
     },
     "C14": {
         "components": ["link"],
+        "coq_files": ["Properties/C14.v", "Properties/C14_backoff.v"],
         "rule": ("fault scenarios on two real systems: cut after every byte offset of a 3-frame stream (ReconnectLimit 0 exhaustively; limit 2 sampled in the quick "
                  "tier, exhaustively in the thorough tier), cut inside the handshake, refused dials, reset-after-accept, peer restart, injected undecodable / "
                  "invalid-length frames, unencodable and > 4 MiB messages, late delivery on an old connection, two peers (one refusing, one healthy with steady "
                  "traffic; monitors c14-no-dead-letter-after-limit with a real-time bound of max(15 s, 10 x nominal back-off sum), c14-retry-count, "
-                 "c14-healthy-peer-disturbed); one case = one scenario: the Enqueue calls with "
+                 "c14-healthy-peer-disturbed); injected envelopes with rejected sender / receiver references (m0 | BAD | m1 | BAD BAD | m2 ..: monitor "
+                 "c14-unroutable-stops-stream: every message frame handed to the peer after such a frame must reach the actor; the case carries the table of what "
+                 "actor.NewRef answered for the injected strings); back-off object: ~50 Next/Reset/GetAttempt sessions, ~450 Try runs and ~100 two-Try histories per "
+                 "run, exact model cases (delays to the nanosecond) plus the monitors c14-backoff-attempts (fn failing every time is called exactly limit+1 times and "
+                 "Try returns an error), c14-backoff-try-result (Try returns what fn returned when fn stops the loop), c14-backoff-not-reset (GetAttempt() = 0 after "
+                 "every Try; a second Try gets all its attempts; the mailbox of a live system is at 0 when idle), c14-backoff-attempt-numbers, "
+                 "c14-backoff-negative-delay; listener retry: monitor c14-no-recovery (listener-busy: the retry stopped / the system never listened after the port "
+                 "became free / listens but receives nothing), case accept-backoff; same peer port again: regression monitor c14-accepted-connection-not-read (fin / rst variants: frames written into the re-established connection "
+                 "never reach the actor), c14-finding-accept-name-window (KNOWN FINDING C14-accept-name-window: busy-reader variant, the receiving system logged the name "
+                 "collision), c14-no-recovery for such a loss without a logged collision; cases accept-collision/fin, /rst, /backlog (history accept / kernel connection "
+                 "gone / reader ended in the order observed, against Accept.accept_run); cases backoff-enqueue-time: a Tell that ran through its `limit` retries took at least the sum of the lower interval ends; "
+                 "one case = one scenario: the Enqueue calls with "
                  "the environment's answers, against the observed events, per-connection byte counts and receiver observations. non-trivial = at least one "
                  "failed attempt or cut; distinct = distinct scenarios"),
         "modelled_not_verified": [
@@ -93,7 +149,20 @@ PROPERTIES = {
             "C14_subsequence_partial assumes the connections of one sender mailbox do not overlap at the receiver (each connection has its own reader actor: "
             "Link.received concatenates per-connection deliveries in connection order); without it the clause is refuted (C14_overlap_reorder_refuted, known finding)",
             "wall-clock promptness of Tell is measured, not proved; the theorem is structural (every label of an Enqueue, including LSleep, runs on the calling goroutine)",
-            "back-off durations are the nominal 100 ms * 2^k capped at 3 s (jitter +-25 % not modelled)",
+            "back-off (Remoting/Backoff.v): Factor is 2.0 (the only factor vivid passes; the differential run reads Factor from the live objects); float64 "
+            "arithmetic = exact dyadic arithmetic rounded to nearest-even at 53 bits per operation (rn53), exponent range not modelled (math.Pow(2, k) = +Inf for "
+            "k >= 1024 and the unbounded 2^k are both capped to MaxDelay), no fused multiply-add (amd64 GOAMD64=v1; checked bit for bit by the differential run on "
+            "the machine of the check); rand.Float64() = float64(Int63()) / 2^63 with a redraw at 1.0 (math/rand of the Go toolchain in use; the integer is supplied "
+            "by the harness's mirror generator); time.Sleep(d) sleeps at least d (only the lower bound of a measured Tell duration is compared); "
+            "C14.v's older nominal figures (backoff_ms: 100 ms * 2^k capped at 3 s) remain in C14_dead_letter_after_exhaustion / C14_tell_nonblocking_refuted",
+            "receiving side (Remoting/Accept.v): the table of reader actors of accepted connections as a list of names; that the kernel accepts a successor from the same "
+            "peer ip:port as soon as its own connection is gone (AGone) independently of the reader actor's progress (AReaderEnd) is the environment (tcp_ok is TCP's "
+            "4-tuple uniqueness); that an accepted connection whose ActorOf failed is never read and never reported to the dialler is the code as it is (onConnection "
+            "returns without Reply; the acceptor's Ask times out and Close only arms a read deadline); in the harness case the order of the second accept and the old "
+            "reader's end is inferred from the receiving system's log (name collision logged or not)",
+            "unroutable frames: whether actor.NewRef accepts an (address, path) pair is an oracle per case (the harness asks the real NewRef for the strings it "
+            "injects; RemRun.ref_ok; unlisted pairs are accepted) - utils.NormalizeAddress / NormalizePath themselves are not modelled; in the theorems `routable` "
+            "is universally quantified",
             "several peers: one sender machine per remote mailbox with its own attempt counter (LinkPeers.pair_run; mailbox.go newMailbox creates one "
             "ExponentialBackoff per Mailbox); the unit of interleaving between mailboxes is one iteration of backoff.Try's loop; the shared-counter machine "
             "(LinkPeers.shared_run) is a hypothetical variant used only in C14_shared_counter_never_dead_letters / _refuted",
@@ -108,6 +177,13 @@ PROPERTIES["C15"] = {
              "different systems; pass, 1-byte, straddling, random chunking), then alias-address rounds (1 quick / 6 thorough per alias string of the target system: "
              "Tell, Ask, Ping, Watch, Kill through the alias ref; self-send count of the target system must stay 0); name-reuse rounds (3 quick / 24 thorough: kill, "
              "await termination, re-spawn under the same name, repeat every remote operation beside its local control; one Churn.v model case each, run_remoting op 3); "
+             "boundary-input rounds (1 pass quick under one seeded chunking mode / 5 passes thorough: pass, straddle, hdr-split, 64k, random): Kill with reasons of 0, 255, "
+             "256, 70000 ASCII bytes, 86 CJK runes (258 B), 2+64 four-byte runes (258 B), 256 arbitrary bytes, three variadic reasons joined to 256 B and two seeded lengths "
+             "around 255 and 65535 (thorough adds 1, 257, 65535, 65536, 85 CJK runes, 63/64 emoji, 21846 CJK runes, binary 255/65536, more variadic forms and seeded "
+             "lengths), each with poison false and true, locally and remotely (40 kills quick / 124 per pass thorough, exactly one OnKilled at the watchers on A and C per "
+             "kill); Ask/Reply echo of 0, 1, 255, 256, 65535, 65536, 70000, 1 MiB and a seeded size near 64 KiB (thorough adds 257, 65537, ~1 MiB+, 3 MiB) and Asks answered "
+             "by Reply(*vivid.Error) with texts of 0, 255, 256, 70000 bytes (thorough more); PipeTo to the local and the remote target with a remote and a local forwarder "
+             "for success and failure results of the same sizes; the local run is the control: a limit that hits local and remote alike is counted, not reported; "
              "otherwise implementation monitors only (Properties/C15.v composes C12's envelope round trip with C11's framing theorem per operation; "
              "Properties/C15_remote.v is the wire-level instance for raw envelopes)"),
     "modelled_not_verified": [
@@ -121,6 +197,8 @@ PROPERTIES["C15"] = {
         "what the target system does with a delivered system envelope (kill the subtree, notify watchers) is the actor runtime's business (C06), observed here by monitors only",
         "name reuse: C15_routing_history_independent is about Remoting/Churn.v's sequential scripts (steps separated by round trips in the harness); the model case of a "
         "name-reuse round covers the harness messages (XMsg) of A only: system envelopes (Watch, Ping, Kill) in the same stream are judged by the monitors",
+        "boundary rounds assume a healthy link: the harness proxies of the transparency mode reset replaced connections in both directions (a FIN-closed accepted "
+        "connection exposed the runs to defect C14-accept-name-collision before its repair)",
         _M5,
     ],
 }
@@ -146,7 +224,11 @@ META = {
                  "is delivered exactly once, in order, intact, for every chunking including splits inside the handshake; no envelope is empty (>= 25 bytes) so "
                  "the close marker cannot collide; the receiver rebuilds exactly the sender/receiver refs the encoder wrote; the receiving system resolves "
                  "the receiver at arrival time: after kill + re-spawn under the same name (any history) the messages go to the new incarnation exactly once, in order, "
-                 "after a supervision restart to the same incarnation, while nobody is registered to the dead letters (Remoting/Churn.v). Tied to the code by replaying the "
+                 "after a supervision restart to the same incarnation, while nobody is registered to the dead letters (Remoting/Churn.v); first contact "
+                 "(Remoting/Central.v, Properties/C11_central.v): for any number of concurrent senders and EVERY interleaving of their GetOrCreate / Enqueue steps from "
+                 "an empty mailbox table there is exactly one mailbox (= one connection) per peer address, every sender's messages to an address are on that wire "
+                 "exactly once in program order, and - composed with the framing theorem - the remote system delivers them so for every chunking; with a "
+                 "non-atomic table whose loser keeps its own mailbox this is refuted (witness). Tied to the code by replaying the "
                  "exact bytes a proxy handed to a real system on the model and comparing everything the system observed."),
         "design_ref": "DESIGN.md section 4 C11",
         "note": ("Trusted: Coq kernel; extraction; the harness proxy and observers; M5; codec round trip and normaliser idempotence as explicit hypotheses. "
@@ -161,11 +243,21 @@ META = {
                  "or an encode failure give exactly one dead letter; undecodable and oversize frames do not stop later frames; after a reported failure the next attempt "
                  "delivers on a new connection at a frame boundary; two mailboxes of one system are independent under every interleaving of their iterations, so the dead "
                  "letter after limit+1 failed attempts holds whatever traffic goes to another peer (with one shared back-off counter it would be lost: proved for that "
-                 "variant). Refuted with witnesses: Tell is non-blocking (the caller sleeps `limit` times), order across "
-                 "overlapping connections."),
+                 "variant). Frames that decode but cannot be routed (rejected sender / receiver reference) do not stop later frames either and change nothing "
+                 "for the frames around them. The retry policy exactly (Properties/C14_backoff.v, Remoting/Backoff.v = utils.ExponentialBackoff with float64 "
+                 "modelled to the bit): Factor 2 makes the capped exponential exact; every delay lies within 75 %..125 % of it for every attempt number and every "
+                 "random value; fn failing every time is called exactly limit+1 times; the counter is 0 after every exit of Try, so every Try behaves as on a new "
+                 "object (a stale counter provably loses attempts); the sleeps of one Enqueue are the attempts 0..n-1, n <= ReconnectLimit, their sum is within the "
+                 "sum of the intervals (<= n * 3.75 s; 13.575 s..22.625 s for the default limit 10 when the peer stays away). Without the non-overlap proviso: "
+                 "every interleaving of the connections' deliveries is a permutation of a subsequence of what was sent and keeps each connection's order (no "
+                 "corruption, no duplicate; only the order between two connections can break). Refuted with witnesses: Tell is non-blocking (the caller sleeps "
+                 "`limit` times), order across overlapping connections, and - receiving side, Remoting/Accept.v, the code since the repair of C14-accept-name-collision - every accepted connection whose predecessor's "
+                 "reader actor has reached the end of its stream is read, for every history over any set of peer addresses (C14_accepted_connection_read), while a "
+                 "connection registered before that (the kernel forgets a reset connection at once, the reader may still be busy) is never read "
+                 "(C14_accepted_before_reader_end_refuted: the residual window)."),
         "design_ref": "DESIGN.md section 4 C14",
-        "note": ("Trusted: Coq kernel; extraction; the harness proxy (cuts, refusals, injections) and observers; M5. Known findings: c14-tell-blocks, "
-                 "c14-reorder-across-connections."),
+        "note": ("Trusted: Coq kernel; extraction; the harness proxy (cuts, refusals, injections) and observers; the mirror of the math/rand source; M5. "
+                 "Known findings: c14-tell-blocks, c14-reorder-across-connections, c14-finding-accept-name-window."),
         "technique": "Coq proof (invariant of a small-step sender machine over all scripts, refinement to the frame parser) + scenario replay on two real systems through a fault-injecting proxy",
     },
 }
